@@ -14,6 +14,8 @@ with tempfile.TemporaryDirectory() as d:
     for tc in ET.parse(x).getroot().iter("testcase"):
         if not any(c.tag in ("failure", "error", "skipped") for c in tc):
             passed.add(f"{tc.get('classname')}::{tc.get('name')}")
+if len(sys.argv) > 1:
+    open(sys.argv[1], "w").write("\n".join(sorted(passed)))
 missing = [t for t in base["stable_pass"] if t not in passed]
 print(f"baseline: {len(base['stable_pass']) - len(missing)}/{len(base['stable_pass'])} stable tests pass; "
       f"{len(passed)} passed in total")
